@@ -3,6 +3,7 @@ package props
 import (
 	"fmt"
 	"net"
+	"os"
 	"net/http"
 	"strings"
 	"time"
@@ -41,6 +42,7 @@ func (o *c19Origin) start() error {
 		}
 		fmt.Fprintf(w, "origin-%d", idx)
 	})}
+	o.srv.SetKeepAlivesEnabled(false) // fresh transports per instance: do not let idle connections pile up
 	go o.srv.Serve(ln)
 	o.up = true
 	return nil
@@ -102,7 +104,7 @@ func (s *c19Sys) Reset() {
 	s.origins = nil
 	var servers []config.UpstreamServerConfig
 	for i := 0; i < s.n; i++ {
-		o := &c19Origin{idx: i, addr: fmt.Sprintf("127.0.0.1:%d", 21000+s.shard*8+i)}
+		o := &c19Origin{idx: i, addr: fmt.Sprintf("127.0.0.1:%d", 21000+(os.Getpid()%1100)*8+i)} // per-process port block below the ephemeral range
 		err := o.start()
 		for try := 0; try < 20 && err != nil; try++ {
 			time.Sleep(50 * time.Millisecond)
